@@ -196,7 +196,11 @@ func (g *Signer) top(r *RF, strict bool) bool {
 	return g.sign(r, strict)
 }
 
-func (g *Signer) sign(r *RF, strict bool) bool {
+func (g *Signer) sign(r *RF, strict bool) (res bool) {
+	if signTrace2() {
+		fmt.Fprintf(os.Stderr, "%*sSIGN? strict=%v chain=%d r=%s\n", g.depth*2, "", strict, g.chain, clip(r.String(), 260))
+		defer func() { fmt.Fprintf(os.Stderr, "%*s=> %v\n", g.depth*2, "", res) }()
+	}
 	// bounded search: undecided (false) when the budget is spent
 	g.X.signSteps++
 	if g.depth > 12 || g.X.signSteps > g.X.signLimit {
@@ -210,7 +214,7 @@ func (g *Signer) sign(r *RF, strict bool) bool {
 	if !strict {
 		for _, at := range r.Atoms(false) {
 			ph, ok := g.X.phiOf[at.ID]
-			if os.Getenv("GMSA_SIGN_TRACE") == "2" {
+			if signTrace2() {
 				fmt.Fprintf(os.Stderr, "AFFINE r=%s atom=%s isphi=%v int=%v\n", clip(r.String(), 200), at.Name, ok, at.Int)
 			}
 			if !ok || !at.Int || g.Used[fmt.Sprintf("@affine:%d", at.ID)] {
@@ -227,7 +231,7 @@ func (g *Signer) sign(r *RF, strict bool) bool {
 			}
 			step, isC := kn.Sub(k).IsConst()
 			coef, okD := r.Deriv(at.ID)
-			if os.Getenv("GMSA_SIGN_TRACE") == "2" {
+			if signTrace2() {
 				fmt.Fprintf(os.Stderr, "  ki=%s kn=%s isC=%v okD=%v coef=%v\n", clip(ki.String(), 100), clip(kn.String(), 100), isC, okD, coef)
 			}
 			if !isC || !okD {
@@ -254,7 +258,7 @@ func (g *Signer) sign(r *RF, strict bool) bool {
 					varies = true
 				}
 			}
-			if os.Getenv("GMSA_SIGN_TRACE") == "2" {
+			if signTrace2() {
 				fmt.Fprintf(os.Stderr, "  varies=%v kl=%v rest=%s\n", varies, kl != nil, rest)
 			}
 			if varies {
@@ -264,7 +268,7 @@ func (g *Signer) sign(r *RF, strict bool) bool {
 			g.Used[key] = true
 			ok2 := g.sign(r.Subst(map[AtomID]*RF{at.ID: ki}), false)
 			delete(g.Used, key)
-			if os.Getenv("GMSA_SIGN_TRACE") == "2" {
+			if signTrace2() {
 				fmt.Fprintf(os.Stderr, "  start=%s ok=%v depth=%d steps=%d/%d\n", r.Subst(map[AtomID]*RF{at.ID: ki}), ok2, g.depth, g.X.signSteps, g.X.signLimit)
 			}
 			if ok2 {
@@ -296,13 +300,13 @@ func (g *Signer) sign(r *RF, strict bool) bool {
 	// (denominator a positive constant): signs multiply
 	if c, isC := r.D.isConst(); isC && c.Sign() > 0 && len(r.N.terms) > 1 {
 		var firstT *term
-		for _, t := range r.N.terms {
+		for _, t := range r.N.sortedTerms() {
 			firstT = t
 			break
 		}
 		for _, v := range firstT.vars {
 			common := true
-			for _, t := range r.N.terms {
+			for _, t := range r.N.sortedTerms() {
 				has := false
 				for i, tv := range t.vars {
 					if tv == v && t.exps[i] >= 1 {
@@ -405,7 +409,7 @@ func (g *Signer) polyPos(p *Poly, strict bool) bool {
 		return !strict
 	}
 	anyPos := false
-	for _, t := range p.terms {
+	for _, t := range p.sortedTerms() {
 		if t.coef.Sign() < 0 {
 			return false
 		}
@@ -478,8 +482,16 @@ func (g *Signer) atomSign(id AtomID, strict bool) bool {
 		return !strict && g.sign(at.Args[0], false) && g.sign(at.Args[1], false)
 	case at.Name == "imod":
 		return !strict && g.sign(at.Args[0], false)
-	case at.Name == "shl" || at.Name == "shr":
-		return g.sign(at.Args[0], strict && at.Name == "shl")
+	case at.Name == "shl":
+		return g.sign(at.Args[0], strict)
+	case at.Name == "shr":
+		// x >> k >= 0 for x >= 0; never known to be > 0 (the shift may clear every set bit).
+		// (This case used to answer the strict question with the non-strict one: with the fact
+		// E == 0 for E = marks[j/32] >> j%32 it made marks[bi] + E "positive", hence
+		// marks[bi] != 0, and NodeMarks.Next's scan loop dead — but only when the terms of a
+		// sum happened to be visited in one of two orders: the source of a rare order-dependent
+		// false alarm.)
+		return !strict && g.sign(at.Args[0], false)
 	case at.Name == "ite":
 		c := at.Args[0]
 		return g.with(c).sign(at.Args[1], strict) && g.with(s.Not(c)).sign(at.Args[2], strict)
